@@ -396,9 +396,9 @@ theorem C14_listener_access_frame {s s' : St M σ κ} :
       (s'.file ≠ s.file → ⟨.file, true⟩ ∈ accC s) ∧ s'.cfg = s.cfg ∧ (∀ t, s'.mem t = s.mem t)) :=
   ⟨accP_frame init, accC_frame proc⟩
 
-/-- **Deadlock freedom**: in every reachable state in which the producer still has calls to make or to finish, some
-thread can take a step — for every buffer size N ≥ 0, every file set, every script and every interleaving. -/
-theorem C14_listener_deadlock_free {N : Nat} {k0 : κ} {script : List (Cmd M κ)} {s : St M σ κ}
+/-- **Deadlock freedom (progress)**: in every reachable state in which the producer still has calls to make or to finish,
+some thread can take a step — for every buffer size N ≥ 0, every file set, every script and every interleaving. -/
+theorem C14_listener_progress {N : Nat} {k0 : κ} {script : List (Cmd M κ)} {s : St M σ κ}
     (hr : Reachable proc init N k0 script s) (hfin : isFin s.p = false) : ∃ s', Step proc init s s' := by
   rcases progress proc init (inv_reachable proc init hr) hfin with h | h
   · obtain ⟨s', hs'⟩ := Option.isSome_iff_exists.mp h; exact ⟨s', Or.inl hs'⟩
@@ -444,7 +444,7 @@ theorem C14_listener_terminates {N : Nat} {k0 : κ} {script : List (Cmd M κ)} {
     cases hfin : isFin s'.p with
     | true => exact ⟨rfl, final_results proc init (inv_reachable proc init hr') hfin⟩
     | false =>
-      obtain ⟨s'', hs''⟩ := C14_listener_deadlock_free proc init hr' hfin
+      obtain ⟨s'', hs''⟩ := C14_listener_progress proc init hr' hfin
       exact absurd hs'' (hstuck s'')
 
 /-- **No carry-over**: whenever the listener is inactive (after `File`/`Close`) the worker is gone, the queue is empty
@@ -539,8 +539,29 @@ theorem C14_listener_legacy_is_instance {M σ : Type} (proc : σ → M → σ) (
   ⟨fun s => ⟨ListenerK.Legacy.toK_stepP init s, ListenerK.Legacy.toK_stepC proc s⟩,
    fun _ h => ListenerK.Legacy.toK_reachable proc init h, ListenerK.Legacy.toK_seqRun proc init true init script⟩
 
+/-- **Deadlock freedom of the model without options, as a corollary through the embedding** (this is the statement
+`FitProps/C03.lean` uses): a reachable non-final state of `FitModel/Listener.lean` embeds into a reachable non-final state of
+the model with options (`C14_listener_legacy_is_instance`), which can step (`C14_listener_progress`); the embedding commutes
+with the step functions, so the step is the image of a step of the old model. -/
+theorem C14_listener_deadlock_free {M σ : Type} (proc : σ → M → σ) (init : σ) {N : Nat} {script : List (Fit.Listener.Cmd M)}
+    {s : Fit.Listener.St M σ} (hr : Fit.Listener.Reachable proc init N script s) (hfin : Fit.Listener.isFin s.p = false) :
+    ∃ s', Fit.Listener.Step proc init s s' := by
+  have hrK := ListenerK.Legacy.toK_reachable proc init hr
+  have hfinK : ListenerK.isFin (ListenerK.Legacy.toK s).p = false := by
+    cases hp : s.p <;> simp [hp, Fit.Listener.isFin] at hfin <;> simp [ListenerK.Legacy.toK, ListenerK.Legacy.pcK, hp, ListenerK.isFin]
+  obtain ⟨x, hx⟩ := C14_listener_progress (fun _ : Unit => proc) init hrK hfinK
+  rcases hx with hx | hx
+  · rw [ListenerK.Legacy.toK_stepP] at hx
+    cases h : Fit.Listener.stepP init s with
+    | none => rw [h] at hx; cases hx
+    | some s' => exact ⟨s', Or.inl h⟩
+  · rw [ListenerK.Legacy.toK_stepC] at hx
+    cases h : Fit.Listener.stepC proc s with
+    | none => rw [h] at hx; cases hx
+    | some s' => exact ⟨s', Or.inr h⟩
+
 /-- non-vacuity: with buffer size 0 there are reachable states in which the producer is in the middle of `OnMesg`
-(`isFin = false`, hypothesis of `C14_listener_deadlock_free`; `N = 0`, hypothesis of `C14_listener_unbuffered_handover`) and
+(`isFin = false`, hypothesis of `C14_listener_progress`; `N = 0`, hypothesis of `C14_listener_unbuffered_handover`) and
 reachable states in which the listener is inactive after `Close` (hypothesis of `C14_listener_no_carry_over`); and a
 reachable state in which BOTH threads are about to access memory (the producer copies the next message into a pooled slice
 while the worker processes the previous one): the quantifiers of `C14_listener_no_data_race` range over something. -/
